@@ -32,17 +32,24 @@ theorem eval_let (X : Ctx p q) {x : String} {vt : Fun.Ty} {bound body : Fun.Term
     {lty : Option Fun.Ty} {env : Fun.Env} {k : Fun.Stack} {c : Core.Term} {s : Core.Stmt}
     {ρ0 ρ : CEnv} {out : Out} {n : Nat} (hg : good p (.letIn x vt bound body lty) = true)
     (hc : Compiled q n (.letIn x vt bound body lty) c s)
-    (he : EnvRel (GP p) q n (fv (.letIn x vt bound body lty)) env ρ0) (hr : CRel (GP p) q n k c ρ0)
-    (hbd : BoundOn (tfvStmt s []) ρ0) (hag : AgreeOn (tfvStmt s []) ρ0 ρ) :
+    (he : EnvRel (GP p) p q n (fv (.letIn x vt bound body lty)) env ρ0) (hr : CRel (GP p) p q n k c ρ0)
+    (hbd : BoundOn (tfvStmt s []) ρ0) (hag : AgreeOn (tfvStmt s []) ρ0 ρ)
+    (hT : STM p (.eval (.letIn x vt bound body lty) env k)) :
     Chunk p q (R p q) true true (funSize (.letIn x vt bound body lty)) (.eval (.letIn x vt bound body lty) env k) ⟨s, ρ, out, n⟩ := by
   simp only [good, Bool.and_eq_true] at hg
   obtain ⟨⟨hnct, hgi⟩, hgb⟩ := hg
+  obtain ⟨t0, hlty⟩ := annO_some hnct
+  have hkind : Core.isCodata q.codataTypes (compileTy t0) = kkind k := by
+    obtain ⟨τ2, h1, h2⟩ := X.kind hT
+    simp only [getType] at h1
+    rw [hlty] at h1; cases h1
+    exact h2
   obtain ⟨st, st', hcwc, hst, htn, hcn⟩ := hc
   rw [cwc_letIn] at hcwc
   have hxu : ∀ y ∈ [x], y ∈ st.usedVars := fun y hy =>
     htn.bd y (by simp only [List.mem_singleton] at hy; subst hy; simp [binderNames])
   -- common part of the two cases: the translation of the body
-  have hbody : ∀ c' st1 s' , letCore x vt bound body c' st1 = .ok (s', st') → FS st st1 →
+  have hbody : ∀ (n : Nat) c' st1 s' , letCore x vt bound body c' st1 = .ok (s', st') → FS st st1 →
       ConsNames c' st1 n →
       ∃ inStmt st2, compileWithCont body c' st1 = .ok (inStmt, st2) ∧ FS st2 st' ∧
         Compiled q n body c' inStmt ∧ TermNames bound st2 ∧ StOK q st2 ∧
@@ -51,7 +58,7 @@ theorem eval_let (X : Ctx p q) {x : String} {vt : Fun.Ty} {bound body : Fun.Term
             s' = .cut (compileTy vt) P (.mu .cns ⟨x, 0⟩ (compileTy vt) inStmt)
         else compileWithCont bound (.mu .cns ⟨x, 0⟩ (compileTy vt) inStmt) st2 = .ok (s', st')) ∧
         ConsNames (.mu .cns ⟨x, 0⟩ (compileTy vt) inStmt) st2 n := by
-    intro c' st1 s' hcore hfs hcn'
+    intro n c' st1 s' hcore hfs hcn'
     unfold letCore at hcore
     cases hcb : compileWithCont body c' st1 with
     | error e => simp [hcb] at hcore
@@ -102,13 +109,13 @@ theorem eval_let (X : Ctx p q) {x : String} {vt : Fun.Ty} {bound body : Fun.Term
     rw [if_pos hcd] at hgb
     simp only [Bool.and_eq_true] at hgb
     obtain ⟨hgpb, hpsb⟩ := hgb
-    refine guard_sim X (fv (.letIn x vt bound body lty)) hcwc hnct hxu htn.fv hcn he hr hbd hag ?_
-    intro c' st1 s' ρ0' ρ' hcore hfs hcn' hyg he' hr' hbd' hag'
-    obtain ⟨inStmt, st2, hcb, f2', hcbody, tnbound, hst2, hshape, hcnmu⟩ := hbody c' st1 s' hcore hfs hcn'
+    refine guard_sim X (fv (.letIn x vt bound body lty)) hcwc hlty hkind htn.nosig hxu htn.fv hcn he hr hbd hag ?_
+    intro n c' st1 s' ρ0' ρ' _ hcore hfs hcn' hyg he' hr' hbd' hag'
+    obtain ⟨inStmt, st2, hcb, f2', hcbody, tnbound, hst2, hshape, hcnmu⟩ := hbody n c' st1 s' hcore hfs hcn'
     rw [if_pos hcd] at hshape
     obtain ⟨P, hcP, rfl⟩ := hshape
     have hstep := step_let_cd p x vt bound body lty env k hcd
-    have hebound : EnvRel (GP p) q n (fv bound) env ρ0' := he'.sub fun y hy => by simp [fv, hy]
+    have hebound : EnvRel (GP p) p q n (fv bound) env ρ0' := he'.sub fun y hy => by simp [fv, hy]
     have hbdP : BoundOn (tfvTerm P []) ρ0' := hbd'.mono fun y hy => mem_tfv_cut.2 (.inl hy)
     have hagP : AgreeOn (tfvTerm P []) ρ0' ρ' := hag'.mono fun y hy => mem_tfv_cut.2 (.inl hy)
     cases hpv : pureVal p bound env with
@@ -134,7 +141,7 @@ theorem eval_let (X : Ctx p q) {x : String} {vt : Fun.Ty} {bound body : Fun.Term
       -- the Core machine evaluates the producer and binds `x`
       have hreach : ∃ i ρ2 n2 V, CSteps q
           ⟨.cut (compileTy vt) P (.mu .cns ⟨x, 0⟩ (compileTy vt) inStmt), ρ', out, n⟩
-          ⟨inStmt, (⟨x, 0⟩, V) :: ρ2, out, n2⟩ i ∧ n ≤ n2 ∧ SigExt n ρ' ρ2 ∧ VRel (GP p) q n v V := by
+          ⟨inStmt, (⟨x, 0⟩, V) :: ρ2, out, n2⟩ i ∧ n ≤ n2 ∧ SigExt n ρ' ρ2 ∧ VRel (GP p) p q n v V := by
         cases hPv : P.isVar with
         | true =>
           cases P with
@@ -180,15 +187,15 @@ theorem eval_let (X : Ctx p q) {x : String} {vt : Fun.Ty} {bound body : Fun.Term
     have f1 : FSteps p (.eval (.letIn x vt bound body lty) env k)
         (.eval bound env (.letF x body env :: k)) [] 1 := .one (step_let_nc p x vt bound body lty env k hcd')
     refine Chunk.prefix f1 (.refl _) rfl (fun _ => Nat.le_refl _) (fun h => .inr h) ?_
-    refine guard_sim X (fv (.letIn x vt bound body lty)) hcwc hnct hxu htn.fv hcn he hr hbd hag ?_
-    intro c' st1 s' ρ0' ρ' hcore hfs hcn' hyg he' hr' hbd' hag'
-    obtain ⟨inStmt, st2, hcb, f2', hcbody, tnbound, hst2, hshape, hcnmu⟩ := hbody c' st1 s' hcore hfs hcn'
+    refine guard_sim X (fv (.letIn x vt bound body lty)) hcwc hlty hkind htn.nosig hxu htn.fv hcn he hr hbd hag ?_
+    intro n c' st1 s' ρ0' ρ' _ hcore hfs hcn' hyg he' hr' hbd' hag'
+    obtain ⟨inStmt, st2, hcb, f2', hcbody, tnbound, hst2, hshape, hcnmu⟩ := hbody n c' st1 s' hcore hfs hcn'
     rw [if_neg hcd] at hshape
     have hncv : Core.isCodata q.codataTypes (compileTy vt) = false := by rw [X.cod vt]; exact hcd'
     -- pad the ideal environment so that the free variables of the continuation are bound
     obtain ⟨ρp, hep, hrp, hbdp, hagp, hbdK⟩ :=
       ideal_pad (tfvTerm (.mu .cns ⟨x, 0⟩ (compileTy vt) inStmt) []) he' hr' hbd' hag'
-    have hK : KRel (GP p) q n (.letF x body env :: k) (.mutilde ρp ⟨x, 0⟩ inStmt) := by
+    have hK : KRel (GP p) p q n (.letF x body env :: k) (.mutilde ρp ⟨x, 0⟩ inStmt) := by
       refine KRel.letF (ρ0 := ρp) hgi hcbody (hep.sub fun y hy => ?_) hrp ?_ ?_ (.refl _ _)
       · obtain ⟨h1, h2⟩ := List.mem_filter.1 hy
         simp only [fv, List.mem_append]
@@ -209,55 +216,60 @@ theorem eval_label (X : Ctx p q) {a : String} {t : Fun.Term}
     {lty : Option Fun.Ty} {env : Fun.Env} {k : Fun.Stack} {c : Core.Term} {s : Core.Stmt}
     {ρ0 ρ : CEnv} {out : Out} {n : Nat} (hg : good p (.label a t lty) = true)
     (hc : Compiled q n (.label a t lty) c s)
-    (he : EnvRel (GP p) q n (fv (.label a t lty)) env ρ0) (hr : CRel (GP p) q n k c ρ0)
-    (hbd : BoundOn (tfvStmt s []) ρ0) (hag : AgreeOn (tfvStmt s []) ρ0 ρ) :
+    (he : EnvRel (GP p) p q n (fv (.label a t lty)) env ρ0) (hr : CRel (GP p) p q n k c ρ0)
+    (hbd : BoundOn (tfvStmt s []) ρ0) (hag : AgreeOn (tfvStmt s []) ρ0 ρ)
+    (hT : STM p (.eval (.label a t lty) env k)) :
     Chunk p q (R p q) true true μ (.eval (.label a t lty) env k) ⟨s, ρ, out, n⟩ := by
   simp only [good, Bool.and_eq_true] at hg
   obtain ⟨hg, hncd⟩ := hg
   obtain ⟨st, st', hcwc, hst, htn, hcn⟩ := hc
   rw [cwc_label] at hcwc
-  obtain ⟨τ, rfl, hnc⟩ := X.cod.ncd hncd
-  have htriv : True := trivial
-  cases htriv with
-  | intro =>
-    simp only [c_label] at hcwc
-    cases hx : compileWithCont t (.var .cns ⟨a, 0⟩ (compileTy τ)) st with
-    | error e => simp [hx] at hcwc
-    | ok r =>
-      obtain ⟨s1, st1⟩ := r
-      simp only [hx, Except.ok.injEq, Prod.mk.injEq] at hcwc
-      obtain ⟨rfl, rfl⟩ := hcwc
-      have hagc : AgreeOn (tfvTerm c []) ρ0 ρ := hag.mono fun y hy => mem_tfv_cut.2 (.inr hy)
-      have hrρ := hr.agree hagc
-      cases hrρ with
-      | @mk _ _ _ cv hcv hk hi hb' _ =>
-        have hs := step_cut_mu (q := q) (cty := compileTy τ) (ty := compileTy τ) hnc
-          (a := ⟨a, 0⟩) (s := s1) (ρ := ρ) (out := out) (n := n) hi hcv .prd
-        have ha_used : a ∈ st.usedVars := htn.bd a (by simp [binderNames])
-        have ha_sig : a ≠ sig := fun e => htn.nosig (e ▸ ha_used)
-        have f1 : Fun.step p (.eval (.label a t (some τ)) env k) =
-            .next (.eval t ((a, .cont k) :: env) k) none := rfl
-        refine .inr ⟨0, _, _, [], 1, _, .refl _, .inr ⟨none, f1, rfl⟩,
-          (fun _ => .inr (.inl (by intro h; cases h))), (fun _ => .inl (Nat.le_refl 1)), .one hs, by simp, ?_⟩
-        refine SRel.eval (c := .var .cns ⟨a, 0⟩ (compileTy τ)) (ρ0 := (⟨a, 0⟩, cv) :: ρ0) hg ?_ ?_ ?_ ?_ ?_
-        · refine ⟨st, st1, hx, hst, ⟨fun y hy => ?_, fun y hy => ?_, htn.nosig⟩, ?_⟩
-          · by_cases hya : y = a
-            · exact hya ▸ ha_used
-            · exact htn.fv y (by simp [fv, hy, hya])
-          · exact htn.bd y (by simp [binderNames, hy])
-          · intro b hb
-            simp only [occTerm, List.mem_singleton] at hb
-            subst hb
-            exact .inr ⟨ha_sig, ha_used⟩
-        · exact EnvRel.bind (by simpa [fv] using he) (.cont hk)
-        · exact .mk (by simp [Core.cnsVal, lookup_cons]) hk trivial
-            (fun b hb => by rw [mem_tfv_var] at hb; subst hb; exact ⟨_, lookup_cons_self _ _ _⟩) hnc
-        · exact BoundOn.cons (hbd.mono fun y hy => by
-            obtain ⟨h1, h2⟩ := List.mem_filter.1 hy
-            exact mem_tfv_cut.2 (.inl (mem_tfv_mu_of h1 (by simpa using h2))))
-        · exact AgreeOn.cons (hag.mono fun y hy => by
-            obtain ⟨h1, h2⟩ := List.mem_filter.1 hy
-            exact mem_tfv_cut.2 (.inl (mem_tfv_mu_of h1 (by simpa using h2))))
+  obtain ⟨τ, rfl⟩ := annO_some hncd
+  have hkind : Core.isCodata q.codataTypes (compileTy τ) = kkind k := by
+    obtain ⟨τ2, h1, h2⟩ := X.kind hT
+    simp only [getType, Option.some.injEq] at h1
+    subst h1
+    exact h2
+  simp only [c_label] at hcwc
+  cases hx : compileWithCont t (.var .cns ⟨a, 0⟩ (compileTy τ)) st with
+  | error e => simp [hx] at hcwc
+  | ok r =>
+    obtain ⟨s1, st1⟩ := r
+    simp only [hx, Except.ok.injEq, Prod.mk.injEq] at hcwc
+    obtain ⟨rfl, rfl⟩ := hcwc
+    have hagc : AgreeOn (tfvTerm c []) ρ0 ρ := hag.mono fun y hy => mem_tfv_cut.2 (.inr hy)
+    obtain ⟨i, n', ρ', cv, hcs, hi1, hn', hext, hk⟩ :=
+      bind_cont X hr hagc hkind ⟨a, 0⟩ (compileTy τ) s1 out
+    obtain ⟨ρ01, hext0, hagx⟩ := hext.agree (ρ0 := ρ0)
+    have ha_used : a ∈ st.usedVars := htn.bd a (by simp [binderNames])
+    have ha_sig : a ≠ sig := fun e => htn.nosig (e ▸ ha_used)
+    have f1 : Fun.step p (.eval (.label a t (some τ)) env k) =
+        .next (.eval t ((a, .cont k) :: env) k) none := rfl
+    have hbd1 : BoundOn ((tfvStmt s1 []).filter (·.var ≠ ⟨a, 0⟩)) ρ0 := hbd.mono fun y hy => by
+      obtain ⟨h1, h2⟩ := List.mem_filter.1 hy
+      exact mem_tfv_cut.2 (.inl (mem_tfv_mu_of h1 (by simpa using h2)))
+    have hag1 : AgreeOn ((tfvStmt s1 []).filter (·.var ≠ ⟨a, 0⟩)) ρ0 ρ := hag.mono fun y hy => by
+      obtain ⟨h1, h2⟩ := List.mem_filter.1 hy
+      exact mem_tfv_cut.2 (.inl (mem_tfv_mu_of h1 (by simpa using h2)))
+    refine .inr ⟨0, _, _, [], i, _, .refl _, .inr ⟨none, f1, rfl⟩,
+      (fun _ => .inr (.inl (by intro h; cases h))), (fun _ => .inl hi1), hcs, by simp, ?_⟩
+    refine SRel.eval (c := .var .cns ⟨a, 0⟩ (compileTy τ)) (ρ0 := (⟨a, 0⟩, cv) :: ρ01) hg ?_ ?_ ?_ ?_ ?_
+    · refine ⟨st, st1, hx, hst, ⟨fun y hy => ?_, fun y hy => ?_, htn.nosig⟩, ?_⟩
+      · by_cases hya : y = a
+        · exact hya ▸ ha_used
+        · exact htn.fv y (by simp [fv, hy, hya])
+      · exact htn.bd y (by simp [binderNames, hy])
+      · intro b hb
+        simp only [occTerm, List.mem_singleton] at hb
+        subst hb
+        exact .inr ⟨ha_sig, ha_used⟩
+    · refine EnvRel.bind ?_ (.cont hk)
+      refine ((he.mono hn').sigExt hext0 fun y hy => htn.fv_ne_sig y ?_).sub fun y hy => by
+        simpa [fv] using hy
+      exact hy
+    · exact crel_var hk (lookup_cons_self _ _ _) hkind
+    · exact BoundOn.cons (hbd1.sigExt hext0)
+    · exact AgreeOn.cons (hagx _ hag1)
 
 theorem step_goto (p : Fun.CheckedProgram) (a u ty env k) :
     Fun.step p (.eval (.goto a u ty) env k) =
@@ -271,14 +283,15 @@ theorem eval_goto (X : Ctx p q) {a : String} {u : Fun.Term}
     {gty : Option Fun.Ty} {env : Fun.Env} {k : Fun.Stack} {c : Core.Term} {s : Core.Stmt}
     {ρ0 ρ : CEnv} {out : Out} {n : Nat} (hg : good p (.goto a u gty) = true)
     (hc : Compiled q n (.goto a u gty) c s)
-    (he : EnvRel (GP p) q n (fv (.goto a u gty)) env ρ0)
-    (hbd : BoundOn (tfvStmt s []) ρ0) (hag : AgreeOn (tfvStmt s []) ρ0 ρ) :
+    (he : EnvRel (GP p) p q n (fv (.goto a u gty)) env ρ0)
+    (hbd : BoundOn (tfvStmt s []) ρ0) (hag : AgreeOn (tfvStmt s []) ρ0 ρ)
+    (hT : STM p (.eval (.goto a u gty) env k)) :
     Chunk p q (R p q) true true (funSize (.goto a u gty)) (.eval (.goto a u gty) env k) ⟨s, ρ, out, n⟩ := by
   simp only [good, Bool.and_eq_true] at hg
   obtain ⟨⟨hg, hncd⟩, _⟩ := hg
   obtain ⟨st, st', hcwc, hst, htn, hcn⟩ := hc
   rw [cwc_goto] at hcwc
-  obtain ⟨τ, hty', hnc⟩ := X.cod.ncd hncd
+  obtain ⟨τ, hty'⟩ := annO_some hncd
   have hty : getType u = some τ := by rw [getType_eq]; exact hty'
   have htriv : True := trivial
   cases htriv with
@@ -305,14 +318,16 @@ theorem eval_goto (X : Ctx p q) {a : String} {u : Fun.Term}
         simp only [occTerm, List.mem_singleton] at hb
         subst hb
         exact .inr ⟨ha_sig, ha_used⟩
-      · exact .mk (by simpa [Core.cnsVal] using h2) hk trivial
-          (fun b hb => by rw [mem_tfv_var] at hb; subst hb; exact ⟨_, h2⟩) hnc
+      · have hT' := stepM_preserves X.progM hT hstep
+        obtain ⟨τ2, h1', hkind⟩ := X.kind hT'
+        rw [hty] at h1'; cases h1'
+        exact crel_var hk h2 hkind
 
 /-- parentheses -/
 theorem eval_paren {t : Fun.Term} {env : Fun.Env} {k : Fun.Stack} {c : Core.Term} {s : Core.Stmt}
     {ρ0 ρ : CEnv} {out : Out} {n : Nat} (hg : good p (.paren t) = true)
     (hc : Compiled q n (.paren t) c s)
-    (he : EnvRel (GP p) q n (fv (.paren t)) env ρ0) (hr : CRel (GP p) q n k c ρ0)
+    (he : EnvRel (GP p) p q n (fv (.paren t)) env ρ0) (hr : CRel (GP p) p q n k c ρ0)
     (hbd : BoundOn (tfvStmt s []) ρ0) (hag : AgreeOn (tfvStmt s []) ρ0 ρ) :
     Chunk p q (R p q) true true (funSize (.paren t)) (.eval (.paren t) env k) ⟨s, ρ, out, n⟩ := by
   obtain ⟨st, st', hcwc, hst, htn, hcn⟩ := hc
